@@ -13,6 +13,7 @@ import (
 	psatoken "github.com/veraison/psatoken"
 	"verif/engine/choice"
 	"verif/engine/evid"
+	"verif/fixtures"
 	"verif/mcbor"
 	"verif/refmodel"
 )
@@ -403,6 +404,47 @@ func oddWireForms(a *refmodel.Claims) []struct {
 		return true
 	})
 	add("map-nonminimal", func(t *mcbor.Node) bool { t.HeadW = 2; return true })
+	// forms inside the software components
+	comp := func(label string, f func(m *mcbor.Node)) {
+		add(label, func(t *mcbor.Node) bool {
+			for _, p := range t.Pairs {
+				if kk, _ := p[0].Int(); kk == k.comps && p[1].K == mcbor.Array && len(p[1].Items) > 0 {
+					f(p[1].Items[len(p[1].Items)-1])
+					return true
+				}
+			}
+			return false
+		})
+	}
+	comp("component-unknown-key-3", func(m *mcbor.Node) { m.Put(mcbor.U(3), mcbor.T("foreign")) })
+	comp("component-unknown-keys-first", func(m *mcbor.Node) {
+		m.Pairs = append([][2]*mcbor.Node{{mcbor.I(-1), mcbor.A(mcbor.U(1))}, {mcbor.T("x"), mcbor.Null()}}, m.Pairs...)
+	})
+	comp("component-keys-reversed", func(m *mcbor.Node) {
+		for i, j := 0, len(m.Pairs)-1; i < j; i, j = i+1, j-1 {
+			m.Pairs[i], m.Pairs[j] = m.Pairs[j], m.Pairs[i]
+		}
+	})
+	comp("component-mval-nonminimal", func(m *mcbor.Node) {
+		for i, p := range m.Pairs {
+			if kk, _ := p[0].Int(); kk == 2 {
+				m.Pairs[i][1] = p[1].W(4)
+			}
+		}
+	})
+	comp("component-null-optional", func(m *mcbor.Node) {
+		have := map[int64]bool{}
+		for _, p := range m.Pairs {
+			kk, _ := p[0].Int()
+			have[kk] = true
+		}
+		for _, kk := range []int64{1, 4, 6} {
+			if !have[kk] {
+				m.Put(mcbor.I(kk), mcbor.Null())
+			}
+		}
+	})
+	add("components-array-nonminimal", repl(k.comps, func(v *mcbor.Node) *mcbor.Node { return v.W(2) }))
 	return out
 }
 
@@ -453,6 +495,66 @@ func init() {
 			}
 		}
 	}
+	// C10: a decoded claims-set changed through what its getters hand out / its setters, then encoded
+	for kind := 0; kind < 2; kind++ {
+		kind := kind
+		Scenarios[fmt.Sprintf("c10.decode-change-encode.%s", kindNames[kind])] = func() (choice.Scenario, func() any) {
+			return func(c *choice.Ctx) {
+				a := genValid(c, kind, false)
+				how := 2 + c.Choose("decoded-from", 2)
+				x, err := buildValid(a, how)
+				if err != nil {
+					return
+				}
+				tag := kindNames[kind] + ":decode-change-encode"
+				if _, err := psatoken.EncodeClaimsToCBOR(x); err != nil { // an encoding before the change must not be remembered
+					c.Failf("C10:encode-error:"+tag, "%v", err)
+					return
+				}
+				what := c.Choose("change", 4)
+				switch what {
+				case 0:
+					if len(a.Comps) == 0 {
+						return
+					}
+					scs, err := x.GetSoftwareComponents()
+					if err != nil || len(scs) != len(a.Comps) {
+						return
+					}
+					i := len(scs) - 1
+					if scs[i].SetVersion("changed-1.2.3") != nil || scs[i].SetSignerID(pat(48, 0xd1)) != nil {
+						return
+					}
+					nc := *a.Comps[i]
+					nc.Version, nc.Signer = sp("changed-1.2.3"), bp(pat(48, 0xd1))
+					a.Comps = append(append([]*refmodel.Comp{}, a.Comps[:i]...), &nc)
+				case 1:
+					if x.SetNonce(pat(64, 0xd2)) != nil {
+						return
+					}
+					a.Nonces = [][]byte{pat(64, 0xd2)}
+				case 2:
+					if x.SetVSI("changed") != nil || x.SetClientID(-5) != nil {
+						return
+					}
+					a.VSI, a.ClientID = sp("changed"), i32p(-5)
+				case 3:
+					if x.SetSoftwareComponents([]psatoken.ISwComponent{realComp(fullComp(0xd3, 64))}) != nil {
+						return
+					}
+					a.Comps, a.CompsNil, a.NoMeas = []*refmodel.Comp{fullComp(0xd3, 64)}, false, nil
+				}
+				encStats.StateStr(fmt.Sprint("dce", how, what) + a.String())
+				enc, err := psatoken.ValidateAndEncodeClaimsToCBOR(x)
+				encStats.Trans.Add(2)
+				if err != nil {
+					c.Failf("C10:encode-error:"+tag, "after the change: %v\n%s", err, a.String())
+					return
+				}
+				c10Strict(c, encStats, a, enc, fmt.Sprintf("%s:%d", tag, what), nil)
+			}, nil
+		}
+	}
 	// C09(b): every decodable token of C04's enumeration, valid or not
 	for _, p := range []int{1, 2} {
 		for v := 0; v < 2; v++ {
@@ -465,6 +567,63 @@ func init() {
 			}
 		}
 	}
+	// returned encodings are stable values: encoding other claims-sets afterwards must not change bytes handed out earlier
+	for _, prop := range []string{"C09", "C10", "C12"} {
+		prop := prop
+		Scenarios[strings.ToLower(prop)+".returned-bytes"] = func() (choice.Scenario, func() any) {
+			return func(c *choice.Ctx) {
+				kind := c.Choose("profile", 3)
+				a := genValid(c, kind, false)
+				x, err := buildValid(a, c.Choose("build", 3))
+				if err != nil {
+					return
+				}
+				entry := c.Choose("entry", 4)
+				var got []byte
+				name := ""
+				switch {
+				case prop == "C12" && entry%2 == 0:
+					got, err = psatoken.EncodeClaimsToJSON(x)
+					name = "EncodeClaimsToJSON"
+				case prop == "C12":
+					got, err = psatoken.ValidateAndEncodeClaimsToJSON(x)
+					name = "ValidateAndEncodeClaimsToJSON"
+				case entry == 0:
+					got, err = psatoken.EncodeClaimsToCBOR(x)
+					name = "EncodeClaimsToCBOR"
+				case entry == 1:
+					got, err = psatoken.ValidateAndEncodeClaimsToCBOR(x)
+					name = "ValidateAndEncodeClaimsToCBOR"
+				case entry == 2:
+					if m, ok := x.(interface{ MarshalCBOR() ([]byte, error) }); ok {
+						got, err = m.MarshalCBOR()
+						name = "MarshalCBOR"
+					} else {
+						return
+					}
+				default:
+					ev := &psatoken.Evidence{Claims: x}
+					got, err = ev.Sign(fixtures.Get("ES256", 1).Signer())
+					name = "Evidence.Sign"
+				}
+				if err != nil {
+					return
+				}
+				encStats.StateStr(fmt.Sprint("rb", kind, entry) + a.String())
+				encStats.Trans.Add(1)
+				kept := append([]byte{}, got...)
+				otherActivity()
+				if !bytes.Equal(got, kept) {
+					c.Failf(prop+":returned-bytes-change:"+name, "bytes returned by %s changed when other claims-sets were encoded afterwards\n at return %x\n now       %x", name, clip(kept), clip(got))
+					return
+				}
+				if prop == "C10" && kind <= kindP2 && entry < 3 {
+					c10Strict(c, encStats, a, got, kindNames[kind]+":after-other-encodes:"+name, nil)
+				}
+				encStats.Outcome("returned-bytes-stable")
+			}, nil
+		}
+	}
 	mk := func(prop string, quickBound, thoroughBound int, rule string) func(r *evid.Run) {
 		return func(r *evid.Run) {
 			registerStandardExt()
@@ -475,12 +634,19 @@ func init() {
 				b = thoroughBound
 			}
 			lp := strings.ToLower(prop)
+			// first, in a single goroutine: deterministic even if the library shares buffers between calls
+			exploreChoiceOpts(r, lp+".returned-bytes", 2, dl, 1)
 			for kind := 0; kind < 3; kind++ {
 				exploreChoice(r, fmt.Sprintf("%s.valid.%s", lp, kindNames[kind]), b, dl)
 			}
 			if prop != "C12" {
 				for kind := 0; kind < 2; kind++ {
 					exploreChoice(r, fmt.Sprintf("%s.oddwire.%s", lp, kindNames[kind]), b, dl)
+				}
+			}
+			if prop == "C10" {
+				for kind := 0; kind < 2; kind++ {
+					exploreChoice(r, fmt.Sprintf("c10.decode-change-encode.%s", kindNames[kind]), b, dl)
 				}
 			}
 			if prop == "C09" {
